@@ -151,5 +151,9 @@ func (c ThriftCodec) Decode(data []byte, i interface{}) error {
 		Protocol:  p,
 	}
 	d.Transport.Close()
-	return d.Read(context.Background(), i.(thrift.TStruct), data)
+	msg, ok := i.(thrift.TStruct)
+	if !ok {
+		return fmt.Errorf("%T is not a thrift.TStruct", i)
+	}
+	return d.Read(context.Background(), msg, data)
 }
